@@ -438,6 +438,96 @@ func genProfAbsentMulti(r *rand.Rand, pdb []PSeries) string {
 	return "{" + strings.Join(parts, ", ") + "}"
 }
 
+// class "self-anchored" for profile selectors (see genSelfAnchored): on a stored label or on service_name
+func genProfSelfAnchored(r *rand.Rand, pdb *[]PSeries) (string, string) {
+	if len(*pdb) == 0 {
+		return `{service_name=~"^api|canary$"}`, "prefix-branch"
+	}
+	ti := r.Intn(len(*pdb))
+	t := (*pdb)[ti]
+	name, v := "service_name", t.Service
+	if len(t.Labels) > 0 && (r.Intn(3) != 0 || len([]rune(v)) < 2) {
+		kv := t.Labels[r.Intn(len(t.Labels))]
+		name, v = kv[0], kv[1]
+	}
+	others := []string{"canary", "zz", "p-2", "api", "9"}
+	val, form := selfAnchoredValue(r, v, others[r.Intn(len(others))])
+	if strings.HasPrefix(form, "escaped-dollar") {
+		pre, _ := regexpLiteralBefore(val)
+		for _, tail := range []string{"$" + strings.TrimPrefix(v, pre), "$"} {
+			cl := t
+			cl.Fp = t.Fp + 7919*uint64(len(tail))
+			cl.Labels = nil
+			if name == "service_name" {
+				cl.Service = pre + tail
+			}
+			for _, x := range t.Labels {
+				if x[0] == name {
+					x[1] = pre + tail
+				}
+				cl.Labels = append(cl.Labels, x)
+			}
+			*pdb = append(*pdb, cl)
+		}
+	}
+	op := []string{"=~", "=~", "!~"}[r.Intn(3)]
+	parts := []string{name + op + quoteSel(r, val)}
+	switch r.Intn(4) {
+	case 0:
+		parts = append(parts, "__profile_type__=~"+quoteSel(r, ".*"))
+	case 1:
+		parts = append([]string{"service_name=~" + quoteSel(r, ".*")}, parts...)
+	}
+	return "{" + strings.Join(parts, ", ") + "}", form
+}
+
+// the literal in front of the final \$ of a value built by selfAnchoredValue, QuoteMeta undone
+func regexpLiteralBefore(val string) (string, bool) {
+	pre := strings.TrimSuffix(val[strings.LastIndex(val, "|")+1:], `\$`)
+	pre = strings.TrimPrefix(pre, "^")
+	raw := ""
+	for i := 0; i < len(pre); i++ {
+		if pre[i] == '\\' && i+1 < len(pre) {
+			i++
+		}
+		raw += string(pre[i])
+	}
+	return raw, true
+}
+
+// measured for the evidence: a selector value that begins with ^ and ends with $ and a stored series inside the date bounds on
+// whose value (stored label, or service name) the value searched as it is and the anchored match disagree
+func profSelfAnchoredDiffers(sels []Selector, c *Ctx, pdb []PSeries) bool {
+	for _, s := range sels {
+		if (s.Op != "=~" && s.Op != "!~") || !strings.HasPrefix(s.Val, "^") || !strings.HasSuffix(s.Val, "$") {
+			continue
+		}
+		re, err := regexp.Compile(s.Val)
+		are, aerr := regexp.Compile("^(?:" + s.Val + ")$")
+		if err != nil || aerr != nil || (profPseudo[s.Name] && s.Name != "service_name") {
+			continue
+		}
+		for _, p := range pdb {
+			if p.Day < c.FromNs/86400000000000-1 || p.Day > c.ToNs/86400000000000 {
+				continue
+			}
+			v := ""
+			if s.Name == "service_name" {
+				v = p.Service
+			}
+			for _, kv := range p.Labels {
+				if kv[0] == s.Name && s.Name != "service_name" {
+					v = kv[1]
+				}
+			}
+			if re.MatchString(v) != are.MatchString(v) {
+				return true
+			}
+		}
+	}
+	return false
+}
+
 var profPseudo = map[string]bool{"__name__": true, "__period_type__": true, "__period_unit__": true, "__sample_type__": true,
 	"__sample_unit__": true, "__profile_type__": true, "service_name": true}
 
@@ -672,6 +762,9 @@ func runProf(c *Case) {
 		if profSomeNotAll(sels, c.Ctx, c.PDB) {
 			addClass(c, "absent-some-not-all")
 		}
+		if profSelfAnchoredDiffers(sels, c.Ctx, c.PDB) {
+			addClass(c, "self-anchored-search-differs")
+		}
 	}
 	pc := mkPlannerCtx(c.Ctx)
 	c.Tables = tablesOf(pc)
@@ -886,6 +979,177 @@ func someNotAll(pms []*labels.Matcher, h *Hints, db *DB) bool {
 	return false
 }
 
+// ---------------------------------------------------------------- class "self-anchored"
+
+// regex matcher values that carry their OWN anchors: they begin with ^ and end with $ but the anchors do not enclose the whole
+// expression -- a top-level alternation (^ binds to the first branch only, $ to the last only), or a final escaped \$ (no end
+// anchor at all). Prometheus compiles ^(?:v)$ whatever v looks like; ClickHouse match() searches, so the planner may not hand v
+// over as it is ("already anchored"): job=~"^api|canary$" would select api-gateway and web-canary. The values are built from a
+// label value of a stored series of the case's database so that this series matches one branch only as a prefix / suffix;
+// controls (whole value as a branch, group inside the anchors) ride along. The database gets a sample of that series inside
+// the window (own PRNG stream: the other cases of a seed are unchanged).
+func cutRunes(r *rand.Rand, v string) (string, string) {
+	rs := []rune(v)
+	if len(rs) < 2 {
+		return v, v
+	}
+	k := 1 + r.Intn(len(rs)-1)
+	return string(rs[:k]), string(rs[k:])
+}
+
+func selfAnchoredValue(r *rand.Rand, v, other string) (string, string) {
+	pre, suf := cutRunes(r, v)
+	q := regexp.QuoteMeta
+	switch r.Intn(9) {
+	case 0, 1:
+		return "^" + q(pre) + "|" + q(other) + "$", "prefix-branch"
+	case 2, 3:
+		return "^" + q(other) + "|" + q(suf) + "$", "suffix-branch"
+	case 4:
+		return "^" + q(pre) + "|" + q(other) + "|" + q(suf) + "$", "prefix-and-suffix-branch"
+	case 5:
+		return "^" + q(v) + "|" + q(other) + "$", "whole-value-branch"
+	case 6:
+		return "^(" + q(pre) + "|" + q(other) + ")$", "group-inside-anchors"
+	case 7:
+		return "^" + q(pre) + `\$`, "escaped-dollar"
+	default:
+		return "^" + q(other) + "|" + q(pre) + `\$`, "escaped-dollar-branch"
+	}
+}
+
+func genSelfAnchored(r *rand.Rand, db *DB, h *Hints) ([]Matcher, string) {
+	if len(db.Series) == 0 {
+		return []Matcher{{Name: "job", Op: "=~", Val: "^api|canary$"}}, "prefix-branch"
+	}
+	ti := r.Intn(len(db.Series))
+	for k := 0; k < len(db.Series); k++ { // prefer a metric series
+		if tp := db.Series[(ti+k)%len(db.Series)].Type; tp == 2 || tp == 0 {
+			ti = (ti + k) % len(db.Series)
+			break
+		}
+	}
+	t := &db.Series[ti]
+	name := ""
+	for _, kv := range t.Labels {
+		if kv[0] == "__name__" {
+			name = kv[1]
+		}
+	}
+	kv := t.Labels[r.Intn(len(t.Labels))]
+	others := []string{"canary", "zz", "db", "prod", "9", "up"}
+	other := others[r.Intn(len(others))]
+	val, form := selfAnchoredValue(r, kv[1], other)
+	if strings.HasPrefix(form, "escaped-dollar") {
+		// a stored value that continues after the dollar sign, and one that ends with it
+		raw, _ := regexpLiteralBefore(val)
+		for j, tail := range []string{"$" + strings.TrimPrefix(kv[1], raw), "$"} {
+			cl := DBSeries{Fp: t.Fp + uint64(j+1)*7919, Type: t.Type}
+			for _, x := range t.Labels {
+				if x[0] == kv[0] {
+					x[1] = raw + tail
+				}
+				cl.Labels = append(cl.Labels, x)
+			}
+			dup := false
+			for _, s := range db.Series {
+				dup = dup || s.Fp == cl.Fp || labelsKey(s.Labels) == labelsKey(cl.Labels)
+			}
+			if !dup {
+				db.Series = append(db.Series, cl)
+			}
+		}
+	}
+	// every series of the family (the target and its clones) gets a metric sample inside the window
+	t = &db.Series[ti]
+	fromNs, toNs := h.Start*1000000, h.End*1000000
+	for i := range db.Series {
+		s := &db.Series[i]
+		if i != ti && len(s.Days) > 0 {
+			continue
+		}
+		ts := fromNs + r.Int63n(toNs-fromNs+1)
+		ts -= ts % 1000000
+		if ts < fromNs {
+			ts = fromNs
+		}
+		db.Samples = append(db.Samples, DBSample{Fp: s.Fp, Type: s.Type, TsNs: ts, Value: int64(r.Intn(100))})
+		day := ts / 86400000000000
+		has := false
+		for _, d := range s.Days {
+			has = has || d == day
+		}
+		if !has {
+			s.Days = append(s.Days, day)
+			sort.Slice(s.Days, func(a, b int) bool { return s.Days[a] < s.Days[b] })
+		}
+	}
+	op := []string{"=~", "=~", "!~"}[r.Intn(3)]
+	ms := []Matcher{{Name: kv[0], Op: op, Val: val}}
+	if op == "!~" || r.Intn(2) == 0 {
+		sel := Matcher{Name: "__name__", Op: "=", Val: name}
+		if kv[0] == "__name__" || r.Intn(3) == 0 {
+			sel = Matcher{Name: "__name__", Op: "=~", Val: ".+"}
+		}
+		if r.Intn(2) == 0 {
+			ms = append(ms, sel)
+		} else {
+			ms = append([]Matcher{sel}, ms...)
+		}
+	}
+	if r.Intn(2) == 0 { // the statement untouched by processHints: judged against the Prometheus meaning directly
+		h.Step = 0
+	}
+	return ms, form
+}
+
+// measured for the evidence: a matcher value that begins with ^ and ends with $, and a stored metric series with a metric sample
+// in the window that satisfies every OTHER matcher, on whose label value the value searched as it is (regexp.MatchString, what
+// ClickHouse match() would answer for the unwrapped value) and Prometheus' anchored match disagree
+func selfAnchoredDiffers(ms []Matcher, pms []*labels.Matcher, h *Hints, db *DB) bool {
+	if db == nil {
+		return false
+	}
+	for i, m := range ms {
+		if (m.Op != "=~" && m.Op != "!~") || !strings.HasPrefix(m.Val, "^") || !strings.HasSuffix(m.Val, "$") {
+			continue
+		}
+		re, err := regexp.Compile(m.Val)
+		if err != nil {
+			continue
+		}
+		for _, s := range db.Series {
+			if s.Type != 2 && s.Type != 0 {
+				continue
+			}
+			val := func(n string) string {
+				for _, kv := range s.Labels {
+					if kv[0] == n {
+						return kv[1]
+					}
+				}
+				return ""
+			}
+			ok := true
+			for j, o := range pms {
+				if j != i {
+					ok = ok && o.Matches(val(o.Name))
+				}
+			}
+			pos := pms[i].Matches(val(m.Name)) == (m.Op == "=~")
+			if !ok || pos == re.MatchString(val(m.Name)) {
+				continue
+			}
+			for _, x := range db.Samples {
+				if x.Fp == s.Fp && (x.Type == 2 || x.Type == 0) && x.TsNs/1000000 >= h.Start && x.TsNs/1000000 <= h.End {
+					return true
+				}
+			}
+		}
+	}
+	return false
+}
+
 func addClass(c *Case, cl string) {
 	for _, x := range c.Class {
 		if x == cl {
@@ -1012,6 +1276,9 @@ func runQuerier(c *Case) {
 		c.Oracle = genOracle(c.Ms, pms, c.DB)
 		if someNotAll(pms, c.Hints, c.DB) {
 			addClass(c, "absent-some-not-all")
+		}
+		if selfAnchoredDiffers(c.Ms, pms, c.Hints, c.DB) {
+			addClass(c, "self-anchored-search-differs")
 		}
 	}
 	sc := &script{}
@@ -1318,6 +1585,10 @@ func main() {
 			if rs := hx.Rand(f.Seed*1299709 + int64(i)); rs.Intn(4) == 0 { // own stream
 				c.Query = genProfAbsentMulti(rs, c.PDB)
 				c.Class = append(c.Class, "absent-multi")
+			} else if rs := hx.Rand(f.Seed*49979687 + int64(i)); rs.Intn(5) == 0 { // own stream
+				var form string
+				c.Query, form = genProfSelfAnchored(rs, &c.PDB)
+				c.Class = append(c.Class, "self-anchored", "self-anchored/"+form)
 			}
 			if rs := hx.Rand(f.Seed*7919 + int64(i)); rs.Intn(3) == 0 { // a Series request with two or three matchers
 				c.Members = []Member{{Query: c.Query}}
@@ -1363,6 +1634,10 @@ func main() {
 			if rs := hx.Rand(f.Seed*104729 + int64(i)); rs.Intn(4) == 0 { // own stream: the other cases of the seed stay as they were
 				c.Ms = genAbsentMulti(rs, c.DB)
 				c.Class = append(c.Class, "absent-multi")
+			} else if rs := hx.Rand(f.Seed*49979687 + int64(i)); !downDB && rs.Intn(5) == 0 { // own stream
+				var form string
+				c.Ms, form = genSelfAnchored(rs, c.DB, h)
+				c.Class = append(c.Class, "self-anchored", "self-anchored/"+form)
 			}
 		}
 		runCase(&c)
